@@ -396,6 +396,132 @@ fn cv_case(n: usize, k: usize, shuffle: bool, mode: RngMode) {
     mc::describe(|| json!({"op": "cross_validate+cross_val_predict", "n": n, "k": k, "shuffle": shuffle, "fitted_on": log.borrow().fits.iter().map(|f| f.0.clone()).collect::<Vec<_>>()}));
 }
 
+/// A splitter written by the user: the folds are whatever it lists (test rows in any order, training
+/// rows not necessarily the complement — purged or gapped schemes).
+struct Listed {
+    folds: Vec<(Vec<usize>, Vec<usize>)>,
+}
+
+impl BaseKFold for Listed {
+    type Output = std::vec::IntoIter<(Vec<usize>, Vec<usize>)>;
+    fn split<T: smartcore::math::num::RealNumber, M: smartcore::linalg::Matrix<T>>(&self, _x: &M) -> Self::Output {
+        self.folds.clone().into_iter()
+    }
+    fn n_splits(&self) -> usize {
+        self.folds.len()
+    }
+}
+
+/// Round 9: cross_validate / cross_val_predict driven by a user-written splitter. Two folds; fold 0
+/// holds out an ordered pair of rows (either order), fold 1 a single other row; each training list is
+/// the complement with possibly one more row purged, ascending or descending. "That fold's training
+/// rows" are the rows the splitter lists, in its order; predictions go to the listed positions.
+fn cv_listed_case(n: usize) {
+    let (x, y) = data(n);
+    let a = mc::choose(n);
+    let b = (a + 1 + mc::choose(n - 1)) % n;
+    let rest: Vec<usize> = (0..n).filter(|i| *i != a && *i != b).collect();
+    let c = rest[mc::choose(rest.len())];
+    let mut folds = Vec::new();
+    for test in [vec![a, b], vec![c]] {
+        let mut train: Vec<usize> = (0..n).filter(|i| !test.contains(i)).collect();
+        let purge = mc::choose(train.len() + 1);
+        if purge < train.len() && train.len() > 1 {
+            train.remove(purge);
+        }
+        if mc::choose(2) == 1 {
+            train.reverse();
+        }
+        folds.push((train, test));
+    }
+    let ctx = format!("n={} listed folds (train,test) {:?}", n, folds);
+    let log = RefCell::new(Log::default());
+    let r = mc::guard(|| {
+        cross_validate(
+            |tx: &DenseMatrix<f64>, ty: &Vec<f64>, _p: NoParams| {
+                let mut l = log.borrow_mut();
+                l.fits.push((row_ids(tx), ty.clone()));
+                Ok::<Spy, Failed>(Spy { id: l.fits.len() })
+            },
+            &x,
+            &y,
+            NoParams,
+            Listed { folds: folds.clone() },
+            |yt: &Vec<f64>, yp: &Vec<f64>| {
+                let mut l = log.borrow_mut();
+                l.scores.push((yt.clone(), yp.clone()));
+                l.scores.len() as f64
+            },
+        )
+    });
+    let site = "cross_validate:listed-folds";
+    match r {
+        Err(p) => mc::violation(format!("{}:panic", site), format!("{}: {}", ctx, p.brief())),
+        Ok(Err(e)) => mc::violation(format!("{}:error", site), format!("{}: {}", ctx, e)),
+        Ok(Ok(_)) => {
+            let l = log.borrow();
+            if l.fits.len() != 2 || l.scores.len() != 4 {
+                mc::violation(format!("{}:fold-count", site), format!("{}: {} fits, {} score calls", ctx, l.fits.len(), l.scores.len()));
+            } else {
+                for f in 0..2 {
+                    let (train, test) = &folds[f];
+                    let want_y: Vec<f64> = train.iter().map(|r| 1000.0 + *r as f64).collect();
+                    if l.fits[f].0 != *train || l.fits[f].1 != want_y {
+                        mc::violation(format!("{}:not-the-listed-training-rows", site), format!("{}: fold {} was fitted on rows {:?} with targets {:?}", ctx, f, l.fits[f].0, l.fits[f].1));
+                    }
+                    let (te_true, te_pred) = &l.scores[2 * f + 1];
+                    let want_true: Vec<f64> = test.iter().map(|r| 1000.0 + *r as f64).collect();
+                    let want_pred: Vec<f64> = test.iter().map(|r| ((f + 1) * 1000 + r) as f64).collect();
+                    if *te_true != want_true || *te_pred != want_pred {
+                        mc::violation(format!("{}:not-the-listed-held-out-rows", site), format!("{}: fold {} was scored on targets {:?} / predictions {:?}", ctx, f, te_true, te_pred));
+                    }
+                }
+            }
+        }
+    }
+    let log2 = RefCell::new(Log::default());
+    let r = mc::guard(|| {
+        cross_val_predict(
+            |tx: &DenseMatrix<f64>, ty: &Vec<f64>, _p: NoParams| {
+                let mut l = log2.borrow_mut();
+                l.fits.push((row_ids(tx), ty.clone()));
+                Ok::<Spy, Failed>(Spy { id: l.fits.len() })
+            },
+            &x,
+            &y,
+            NoParams,
+            Listed { folds: folds.clone() },
+        )
+    });
+    let site = "cross_val_predict:listed-folds";
+    match r {
+        Err(p) => mc::violation(format!("{}:panic", site), format!("{}: {}", ctx, p.brief())),
+        Ok(Err(e)) => mc::violation(format!("{}:error", site), format!("{}: {}", ctx, e)),
+        Ok(Ok(yhat)) => {
+            let l = log2.borrow();
+            if l.fits.len() != 2 || yhat.len() != n {
+                mc::violation(format!("{}:fold-count", site), format!("{}: {} fits, {} predictions", ctx, l.fits.len(), yhat.len()));
+            } else {
+                for f in 0..2 {
+                    let (train, test) = &folds[f];
+                    if l.fits[f].0 != *train {
+                        mc::violation(format!("{}:not-the-listed-training-rows", site), format!("{}: fold {} was fitted on rows {:?}", ctx, f, l.fits[f].0));
+                    }
+                    for r in test {
+                        if yhat[*r] != ((f + 1) * 1000 + r) as f64 {
+                            mc::violation(format!("{}:misplaced", site), format!("{}: position {} holds {} instead of model {}'s prediction for row {}", ctx, r, yhat[*r], f + 1, r));
+                        }
+                    }
+                }
+                mc::outcome(mc::hash::h_f64s(&yhat));
+            }
+        }
+    }
+    mc::count("cv_listed_folds");
+    mc::nontrivial();
+    mc::describe(|| json!({"op": "cross_validate+cross_val_predict (listed folds)", "n": n, "folds": folds}));
+}
+
 impl Harness for C16 {
     fn id(&self) -> &'static str {
         "C16"
@@ -467,6 +593,9 @@ impl Harness for C16 {
         if t {
             jobs.push(Job::new("kfold-shuffle-dev2-n32", json!({"kind": "kfold", "n": 32, "shuffle": true, "dev": true})).with_dev_bound(2));
         }
+        for n in 4..=(if t { 8usize } else { 6 }) {
+            jobs.push(Job::new(format!("cv-listed-n{}", n), json!({"kind": "cv-listed", "n": n, "shuffle": false})));
+        }
         let jobs = {
             let mut j: Vec<Job> = jobs;
             j.insert(0, Job::new("builders", json!({"kind": "builders"})));
@@ -477,7 +606,7 @@ impl Harness for C16 {
             budget_s: if t { 1500 } else { 40 },
             case_deadline_ms: 20_000,
             floors: vec![
-                ("builder_chains", 5),("uneven_folds", 100), ("non_identity_permutations", 100), ("split_empty_train", 10), ("large_fold_counts", 50), ("call_sequences_shuffled_then_plain", 1000), ("kfold_positional_consumption", 1000), ("cv_failing_fold_reported", 500)],
+                ("builder_chains", 5),("uneven_folds", 100), ("non_identity_permutations", 100), ("split_empty_train", 10), ("large_fold_counts", 50), ("call_sequences_shuffled_then_plain", 1000), ("kfold_positional_consumption", 1000), ("cv_failing_fold_reported", 500), ("cv_listed_folds", 1000)],
             bounds: json!({
                 "builders": mc_sc::builders::BOUNDS,
                 "positional_and_failures": "unshuffled KFold n<=24: nth(j), skip(j).next(), step_by(2), count() against the folds next() delivers, every j<=k; cross_validate with an estimator failing on fold f (every f), n<=12: the failure must be returned",
@@ -488,6 +617,7 @@ impl Harness for C16 {
                 "shuffled_all_permutations": format!("every Fisher-Yates answer sequence (all n! permutations) for n<={} (kfold: every k; split: every test size), cv n<={}", nmax_all, if t { 7 } else { 5 }),
                 "shuffled_deviation_bounded": format!("n<={}: every schedule with at most {} non-identity Fisher-Yates steps{}", dev_hi, dev_b, if t { "; n<=14: at most 3" } else { "" }),
                 "cross_validation": "spy estimator, every 2<=k<=n<=24 unshuffled",
+                "cross_validation_listed_folds": "a user-written splitter with two listed folds on n in 4..=6 (8 thorough) rows: fold 0 holds out every ordered pair of rows, fold 1 every other single row; each training list = complement, optionally with one more row purged, ascending or descending; fitted rows, scored rows and prediction positions must be exactly the listed ones",
             }),
         }
     }
@@ -522,6 +652,7 @@ impl Harness for C16 {
                 };
                 cv_case(n, k, shuffle, mode);
             }
+            "cv-listed" => cv_listed_case(n),
             "kfold-large" | "cv-large" => {
                 let ks: Vec<usize> = [2usize, 3, 7, 64, 127, 128, 129, 200, 255, 256, 257, 258, 300, 511, 512, 513].iter().cloned().filter(|k| *k <= n).chain(std::iter::once(n)).collect();
                 let k = mc::pick(&ks);
